@@ -350,11 +350,13 @@ impl EigenTrustEngine {
         }
 
         // Apply multi-factor trust adjustments
+        // A node without a statistics entry is treated as a node with all-zero statistics,
+        // so that the first report about it moves its score in the reported direction
+        let no_stats = NodeStatistics::default();
         for (node, trust) in trust_vector.iter_mut() {
-            if let Some(stats) = node_stats.get(node) {
-                let factor = self.compute_multi_factor_adjustment(stats);
-                *trust *= factor;
-            }
+            let stats = node_stats.get(node).unwrap_or(&no_stats);
+            let factor = self.compute_multi_factor_adjustment(stats);
+            *trust *= factor;
         }
 
         // Apply time decay
